@@ -36,6 +36,10 @@ func drawReadCfg(r *eng.Run, apps []int) ReadCfg {
 		cfg.CheckUTF8 = true
 	}
 	switch cfg.App {
+	case AppReadFrame:
+		if r.T.Chance(sim.LCfg, 1, 3) {
+			cfg.Bufio = []int{16, 64, 4096}[r.T.Int(sim.LSize, 3)]
+		}
 	case AppNextReader:
 		cfg.Extended = r.T.Chance(sim.LCfg, 1, 4)
 	case AppReadMessage, AppReadData:
